@@ -55,6 +55,12 @@ Grow == /\ mi < Len(Mags)
         /\ ci' = CandIndex(base, Suf.u, Suf.l, V(mi + 1))
         /\ pci' = ci
         /\ ti' = ChibiIntType(base, Suf, V(mi + 1), Variant)
+        /\ (Emit /\ ci' = 0) =>          \* 6.4.4p2: a constant without a type violates a constraint - a diagnostic is required
+              CSVWrite("%1$s", <<ToJson([kind |-> "diag", cls |-> "constant-without-type", base |-> base, suffix |-> Suf.t,
+                                         src |-> IntSpellingD(base, Suf, Digs(base, mi + 1), 0)])>>, IOEnv.OUT)
+        /\ (Emit /\ mi = 0 /\ base \in {2, 8}) =>     \* a digit outside the base: not a constant at all (6.4.4.1p1)
+              CSVWrite("%1$s", <<ToJson([kind |-> "diag", cls |-> "digit-outside-base", base |-> base, suffix |-> Suf.t,
+                                         src |-> IntPrefix(base, 0) \o <<48 + base>> \o Suf.t])>>, IOEnv.OUT)
         /\ (Emit /\ ci' > 0 /\ IntSpellable(base, V(mi + 1))) =>
               \A variant \in 0..2 : CSVWrite("%1$s", <<ToJson(Case(mi + 1, CL[ci'], variant))>>, IOEnv.OUT)
 Next == Grow
